@@ -15,6 +15,7 @@ import (
 	"fmt"
 	"reflect"
 	"sort"
+	"strconv"
 	"strings"
 
 	goagrpc "goa.design/goa/v3/grpc"
@@ -553,6 +554,236 @@ func (r *run) historyStream(rng *vh.RNG, nHist, nConc int) []string {
 			if l := r.hJudge(rec, calls[w][:i], "concurrent"); l != "" {
 				lines = append(lines, l)
 			}
+		}
+	}
+	return lines
+}
+
+// -------------------------------------------------------------- stream handlers
+// goa's stream handler (grpc/handler.go streamHandler: Decode then Handle) driven the
+// way the generated server methods drive it (server_grpc_interface.go.tpl): for
+// server streaming `Decode(ctx, message)`, for client and bidirectional streaming
+// `Decode(ctx, nil)` - the method payload, if any, travels in the request metadata
+// and the generated request decoder builds and validates it from there - then the
+// payload assertion, then `Handle(ctx, endpointInput)`. The client side is goa's
+// invoker with a generated-shape request encoder.
+
+type sCase struct {
+	Kind     string `json:"kind"`    // server | client | bidi
+	Payload  string `json:"payload"` // none | object | primitive
+	Written  []kv   `json:"written,omitempty"`
+	Body     string `json:"body,omitempty"` // server streaming: the request message
+	Drop     string `json:"drop,omitempty"` // a required metadata key the client does not send
+	IllTyped bool   `json:"ill_typed,omitempty"`
+	DecPlain bool   `json:"decode_plain_error,omitempty"`
+	EpFail   bool   `json:"endpoint_fails,omitempty"`
+}
+
+type sPayload struct {
+	MD   map[string][]string
+	N    int
+	Body string
+}
+
+type sEndpointInput struct {
+	Payload *sPayload
+	Stream  any
+}
+
+func genSCase(r *vh.RNG, i int) sCase {
+	c := sCase{Kind: []string{"server", "client", "bidi"}[i%3], Payload: []string{"object", "primitive", "none", "object"}[(i/3)%4]}
+	switch c.Payload {
+	case "object":
+		c.Written = append([]kv{{"count", []string{fmt.Sprint(r.Intn(1000))}}}, genKVs(r, rtKeys[:4], 1+r.Intn(2))...)
+	case "primitive":
+		c.Written = []kv{{"goa_payload", []string{vh.Pick(r, rtVals)}}}
+	}
+	if c.Kind == "server" {
+		c.Body = vh.Pick(r, rtVals)
+	}
+	if c.Payload != "none" {
+		switch k := r.Intn(8); {
+		case k == 0:
+			c.Drop = c.Written[0].K
+		case k == 1 && c.Payload == "object":
+			c.IllTyped = true
+			c.Written[0].V = []string{"not-a-number"}
+		case k == 2:
+			c.DecPlain = true
+		}
+	}
+	c.EpFail = r.Chance(1, 8)
+	return c
+}
+
+func (r *run) streamHandlerStream(rng *vh.RNG, n int) []string {
+	var lines []string
+	for i := 0; i < n; i++ {
+		c := genSCase(rng, i)
+		r.res.Evaluations++
+		r.res.Count("stream:stream-handler")
+		r.res.Count("stream-handler:" + c.Kind + ":" + c.Payload)
+		r.distinct.Add(fmt.Sprintf("sh:%v", c))
+		var trace []string
+		var serverMD metadata.MD
+		var got *sPayload
+		// generated-shape server request decoder: payload from the metadata (and from the
+		// message for server streaming), required and typed attributes checked
+		dec := func(_ context.Context, v any, md metadata.MD) (any, error) {
+			trace = append(trace, "decode")
+			serverMD = md.Copy()
+			if c.DecPlain {
+				return nil, errors.New("cannot decode")
+			}
+			p := &sPayload{MD: map[string][]string{}}
+			req := c.Written[0].K
+			if vals := md.Get(req); len(vals) == 0 {
+				return nil, goa.MissingFieldError(req, "metadata")
+			}
+			if c.Payload == "object" {
+				n, err := strconv.Atoi(md.Get("count")[0])
+				if err != nil {
+					return nil, goa.InvalidFieldTypeError("count", md.Get("count")[0], "integer")
+				}
+				p.N = n
+			}
+			for _, e := range c.Written {
+				p.MD[e.K] = md.Get(e.K)
+			}
+			if m, ok := v.(*struct{ Body string }); ok && m != nil {
+				p.Body = m.Body
+			}
+			return p, nil
+		}
+		endpoint := func(_ context.Context, in any) (any, error) {
+			trace = append(trace, "endpoint")
+			got = in.(*sEndpointInput).Payload
+			if c.EpFail {
+				return nil, errors.New("endpoint failed")
+			}
+			return nil, nil
+		}
+		var h goagrpc.StreamHandler
+		if c.Payload == "none" {
+			h = goagrpc.NewStreamHandler(endpoint, nil)
+		} else {
+			h = goagrpc.NewStreamHandler(endpoint, dec)
+		}
+		// the generated server method
+		serverMethod := func(ctx context.Context, message any) (err error) {
+			defer func() {
+				if rec := recover(); rec != nil {
+					err = fmt.Errorf("PANIC in the generated server method shape: %v", rec)
+				}
+			}()
+			var arg any // nil when the payload is streamed
+			if c.Kind == "server" {
+				arg = message
+			}
+			p, err := h.Decode(ctx, arg)
+			if err != nil {
+				return goagrpc.EncodeError(err)
+			}
+			ep := &sEndpointInput{Stream: "stream"}
+			if c.Payload != "none" {
+				ep.Payload = p.(*sPayload)
+			}
+			if err = h.Handle(ctx, ep); err != nil {
+				return goagrpc.EncodeError(err)
+			}
+			return nil
+		}
+		enc := func(_ context.Context, v any, md *metadata.MD) (any, error) {
+			for _, e := range c.Written {
+				if e.K != c.Drop {
+					(*md).Append(e.K, e.V...)
+				}
+			}
+			if c.Kind == "server" {
+				return &struct{ Body string }{c.Body}, nil
+			}
+			return nil, nil
+		}
+		transport := func(ctx context.Context, reqpb any, _ ...grpc.CallOption) (any, error) {
+			out, _ := metadata.FromOutgoingContext(ctx)
+			return "client-stream", serverMethod(metadata.NewIncomingContext(context.Background(), out.Copy()), reqpb)
+		}
+		_, err := goagrpc.NewInvoker(transport, enc, nil).Invoke(context.Background(), &c)
+		in := map[string]any{"stream_handler_case": c, "trace": trace, "server_metadata": serverMD, "error": fmt.Sprint(err)}
+		fail := func(sig, what string) { r.res.Fail(sig, what, in) }
+
+		hasDecoder := c.Payload != "none"
+		decodeOK := !c.DecPlain && c.Drop == "" && !c.IllTyped
+		var want []string
+		if hasDecoder {
+			want = append(want, "decode")
+		}
+		if !hasDecoder || decodeOK {
+			want = append(want, "endpoint")
+		}
+		if err != nil && strings.Contains(err.Error(), "PANIC") {
+			fail("stream-handler-panic", fmt.Sprintf("%s streaming method with a %s payload: %v", c.Kind, c.Payload, err))
+		}
+		switch {
+		case !reflect.DeepEqual(trace, want):
+			sig := "stream-handler-order"
+			if hasDecoder && (len(trace) == 0 || trace[0] != "decode") {
+				sig = "stream-handler-request-decoder-not-run"
+			} else if !decodeOK && len(trace) > 1 {
+				sig = "stream-handler-endpoint-ran-after-decode-error"
+			}
+			fail(sig, fmt.Sprintf("%s streaming method with a %s payload: stages %v, required %v", c.Kind, c.Payload, trace, want))
+		case hasDecoder && !decodeOK && err == nil:
+			fail("stream-handler-invalid-request-accepted", fmt.Sprintf("%v", c))
+		case (!hasDecoder || decodeOK) && c.EpFail != (err != nil):
+			fail("stream-handler-endpoint-error", fmt.Sprintf("endpoint fails=%v, error=%v", c.EpFail, err))
+		case hasDecoder && decodeOK:
+			if got == nil {
+				fail("stream-handler-payload-lost", fmt.Sprintf("%s streaming method: the endpoint received no payload", c.Kind))
+				break
+			}
+			wantMD := mdOf(c.Written)
+			for k, vs := range wantMD {
+				if !reflect.DeepEqual(got.MD[k], vs) {
+					fail("stream-handler-payload-differs", fmt.Sprintf("key %q: sent %q, endpoint payload has %q", k, vs, got.MD[k]))
+					break
+				}
+			}
+			if got.Body != c.Body {
+				fail("stream-handler-payload-differs", fmt.Sprintf("body %q -> %q", c.Body, got.Body))
+			}
+		}
+		// model case
+		var seen, tr []string
+		if hasDecoder && serverMD != nil {
+			var ks []string
+			for _, e := range c.Written {
+				dup := false
+				for _, k := range ks {
+					dup = dup || k == e.K
+				}
+				if !dup && e.K != c.Drop {
+					ks = append(ks, e.K)
+				}
+			}
+			for _, k := range ks {
+				seen = append(seen, fmt.Sprintf("(%s, %s)", zs(k), strs(serverMD.Get(k))))
+			}
+		}
+		for _, s := range trace {
+			tr = append(tr, map[string]string{"decode": "SDecode", "endpoint": "SEndpoint"}[s])
+		}
+		var written []kv
+		for _, e := range c.Written {
+			if e.K != c.Drop {
+				written = append(written, e)
+			}
+		}
+		idx := r.newCase(caseInfo{Stream: "stream-handler"})
+		r.res.Cases[idx] = map[string]any{"stream": "stream-handler", "case": c}
+		lines = append(lines, fmt.Sprintf("(%d, %s, %s, %s, %s, %s)", idx, coqKVs(written), vh.CoqList(seen), vh.CoqBool(hasDecoder), vh.CoqBool(decodeOK), vh.CoqList(tr)))
+		if i < 2 {
+			r.res.Sample(map[string]any{"stream_handler": in}, 10)
 		}
 	}
 	return lines
